@@ -203,6 +203,23 @@ func scenarios(u *universe) []scenario {
 			at(8, sReg(structs.RegisterRequest{Node: "n1", Address: "127.0.0.1", Service: svc("web")}, "register n1 web")),
 			at(9, sReg(structs.RegisterRequest{Node: "n1", Address: "127.0.0.1", Service: proxy("web")}, "register n1 web-sidecar-proxy")),
 			at(12, sDereg(structs.DeregisterRequest{Node: "n1", ServiceID: "web-sidecar-proxy"}, "deregister n1 web-sidecar-proxy"))}},
+		{"store-service-renamed-by-id", []entry{
+			at(35, sReg(structs.RegisterRequest{Node: "n2", Address: "127.0.0.2", Service: &structs.NodeService{ID: "svc-0", Service: "api", Port: 8000},
+				Check: &structs.HealthCheck{Node: "n2", CheckID: "c1", Name: "chk", Status: api.HealthPassing, ServiceID: "svc-0"}}, "register n2 svc-0/api check c1")),
+			at(36, sReg(structs.RegisterRequest{Node: "n2", Address: "127.0.0.2", Service: &structs.NodeService{ID: "svc-0", Service: "web", Port: 8000}}, "register n2 svc-0/web (same id, new name)"))}},
+		{"store-plain", []entry{
+			at(2, sReg(structs.RegisterRequest{Node: "n1", ID: types.NodeID(u.nodeIDs[0]), Address: "127.0.0.1", Service: svc("web"),
+				Check: &structs.HealthCheck{Node: "n1", CheckID: "c1", Name: "chk", Status: api.HealthPassing, ServiceID: "web"}}, "register n1 web c1")),
+			at(3, sReg(structs.RegisterRequest{Node: "n1", ID: types.NodeID(u.nodeIDs[0]), Address: "127.0.0.1",
+				Check: &structs.HealthCheck{Node: "n1", CheckID: "serfHealth", Name: "serf", Status: api.HealthPassing}}, "register n1 serfHealth")),
+			at(4, entry{data: enc(structs.SessionRequestType, &structs.SessionRequest{Datacenter: "dc1", Op: structs.SessionCreate,
+				Session: structs.Session{ID: uuidN(0xb0, 1), Node: "n1", NodeChecks: []string{"serfHealth", "c1"}, Behavior: structs.SessionKeysDelete}}), kind: "session", desc: "session create on n1 [serfHealth c1]"}),
+			at(5, entry{data: enc(structs.KVSRequestType, &structs.KVSRequest{Datacenter: "dc1", Op: api.KVLock, DirEnt: structs.DirEntry{Key: "a/b", Value: []byte("v"), Session: uuidN(0xb0, 1)}}), kind: "kvs", desc: "kvs lock a/b"}),
+			at(6, sKV(api.KVSet, "a/c", "v2")), at(7, sKV(api.KVDelete, "a/c", "")),
+			at(8, entry{data: enc(structs.PreparedQueryRequestType, &structs.PreparedQueryRequest{Datacenter: "dc1", Op: structs.PreparedQueryCreate,
+				Query: &structs.PreparedQuery{ID: u.queryIDs[0], Session: uuidN(0xb0, 1), Service: structs.ServiceQuery{Service: "web"}}}), kind: "prepared-query", desc: "pq create bound to the session"}),
+			at(9, sReg(structs.RegisterRequest{Node: "n1", ID: types.NodeID(u.nodeIDs[0]), Address: "127.0.0.1",
+				Check: &structs.HealthCheck{Node: "n1", CheckID: "c1", Name: "chk", Status: api.HealthCritical, ServiceID: "web"}}, "register n1 c1 critical (invalidates the session)"))}},
 		{"node-name-case", []entry{
 			at(2, sReg(structs.RegisterRequest{Node: "n1", Address: "127.0.0.1", Service: svc("web")}, "register n1 web")),
 			at(4, sReg(structs.RegisterRequest{Node: "N1", Address: "127.0.0.1"}, "register N1"))}},
